@@ -1606,10 +1606,17 @@ _P2_CALLEES = {"initialize_decomposition": ("decomposition/_parafac2.py", "initi
 _CC_CALLEES = {"initialize_constrained_parafac": ("decomposition/_constrained_cp.py", "initialize_constrained_parafac", None),
                "admm": ("solvers/admm.py", "admm", None), "proximal_operator": ("tenalg/proximal.py", "proximal_operator", None)}
 FLOW_TARGETS = [
-    # (label, file, function, parameter signs, tests taken as true, as false, callees to inline[, split])
+    # (label, file, function, parameter signs, tests taken as true, as false, callees to inline[, split[, records]])
     ("active_set_nnls (x >= 0)", "solvers/nnls.py", "active_set_nnls", {"x": "SgNN"}, (), (), {}),
     ("initialize_tucker (non_negative=True, any init incl. a signed user start)", "decomposition/_tucker.py", "initialize_tucker", {}, ("non_negative is True",), (), {}),
+    ("initialize_cp (non_negative=True: built-in init or an entrywise non-negative user init)", "decomposition/_cp.py", "initialize_cp", {"init": "SgNN"},
+     ("non_negative",), (), {}, None, {"kt": ("weights", "factors")}),
     ("parafac2 (nn_modes='all', built-in init, default line search)", "decomposition/_parafac2.py", "parafac2", {}, _P2_TRUE, _P2_FALSE, _P2_CALLEES),
+    ("parafac2 (nn_modes='all', USER init with entrywise non-negative weights and factors, arbitrary projections, default line search)", "decomposition/_parafac2.py", "parafac2",
+     {"init@weights": "SgNN", "init@factors": "SgNN"},
+     ("isinstance(init, (tuple, list, Parafac2Tensor, CPTensor))", "self.nn_modes", "self.nn_modes == 'all'", "mode in nn_modes"),
+     ("init == 'random'", "init == 'svd'", "nn_modes is None", "nn_modes is not None and isinstance(init, str)"), _P2_CALLEES, None,
+     {"init": ("weights", "factors", "projections"), "initialize_decomposition.decomposition": ("weights", "factors", "projections")}),
     ("parafac2 (nn_modes='all', built-in init, linesearch=False)", "decomposition/_parafac2.py", "parafac2", {},
      _P2_TRUE[:2] + _P2_TRUE[4:], _P2_FALSE + ("line_iter", "linesearch and iteration % 2 == 0 and (iteration > 5)"), _P2_CALLEES),
     ("constrained_parafac (non_negative=True, any built-in or entrywise non-negative user init)", "decomposition/_constrained_cp.py", "constrained_parafac",
@@ -1635,10 +1642,11 @@ def corr_flow(chk):
         return open(os.path.join(C.REPO, "tensorly", rel)).read()
     for label, rel, fname, signs, assume, assume_f, callees, *rest in FLOW_TARGETS:
         split = rest[0] if rest else None
+        records = rest[1] if len(rest) > 1 else None
         try:
             with warnings.catch_warnings():
                 warnings.simplefilter("ignore")
-                r = S.translate_flow(src(rel), fname, signs, assume, assume_f, {k: (src(v[0]), v[1], v[2]) for k, v in callees.items()}, split=split)
+                r = S.translate_flow(src(rel), fname, signs, assume, assume_f, {k: (src(v[0]), v[1], v[2]) for k, v in callees.items()}, split=split, records=records)
         except (S.Untranslatable, SyntaxError, OSError, IndexError, KeyError) as e:
             chk.broken.append({"what": f"corr:C10-flow: {label} ({rel}) cannot be translated into the structured sign-analysis language (broken tie)",
                                "detail": f"{type(e).__name__}: {e}"[:300]})
